@@ -388,6 +388,10 @@ def _pair_ok(vals, o, hh, mi):
     values: they are the latest occurrence before the reference day and the earliest on or after it.  (When the reference has a
     non-zero time of day and the expression names the reference's own day the pair is (today, next): recorded as KF-C09-TOD, so
     'before' is checked as 'not after' in that case only.)"""
+    if len(vals) == 1 and 'Mod' not in vals[0] and vals[0].get('value') not in (None, 'not resolved'):
+        tk1 = _tx_tokens(vals[0].get('timex') or '')
+        if tk1 is not None and tk1[0] in ('XXXX-WXX-#', 'XXXX-##-##') and not (tk1[0] == 'XXXX-##-##' and tuple(tk1[1]) == (2, 29)):
+            assert False, ('a single candidate under an open TIMEX (the other occurrence is missing)', vals)
     if len(vals) != 2 or vals[0].get('timex') != vals[1].get('timex') or any(v.get('value') in (None, 'not resolved') or 'Mod' in v for v in vals):
         return
     tk = _tx_tokens(vals[0]['timex'])
@@ -401,7 +405,8 @@ def _pair_ok(vals, o, hh, mi):
     assert (po < o or (po == o and not midnight)) and o <= fo, ('the two candidates do not bracket the reference day', vals)
     if tk[0] == 'XXXX-WXX-#':
         d = tk[1][0]
-        assert (po - 1) % 7 + 1 == d and fo - po == 7, ('weekday candidates are not the neighbouring occurrences of that weekday', vals)
+        # (not 'exactly 7 days apart': 'Mon 13th' carries the same open TIMEX and its candidates are the neighbouring Mondays that are a 13th)
+        assert (po - 1) % 7 + 1 == d and (fo - 1) % 7 + 1 == d, ('weekday candidates do not fall on that weekday', vals)
     else:
         m, d = tk[1]
         assert p[1:] == (m, d) and f[1:] == (m, d), ('candidates differ from the stated month and day', vals)
